@@ -60,15 +60,15 @@ const (
 	c32CompoundTomb
 	c32Renamed
 	c32StrayTmp
+	c32RenamedInCompound // alive in a compound shard under the old name and in a simple shard under the new one
 	// thorough only
 	c32TombAndSimple
 	c32TombAndTrash
-	c32RenamedInCompound
 	c32NumLayouts
 )
 
 var c32LayoutNames = [...]string{"absent", "simple", "2shards", "trash-fresh", "trash-25h", "index+trash", "compound-live",
-	"compound-tomb", "renamed", "stray-tmp", "compound-tomb+simple", "compound-tomb+trash", "renamed-in-compound"}
+	"compound-tomb", "renamed", "stray-tmp", "renamed-in-compound", "compound-tomb+simple", "compound-tomb+trash"}
 
 func c32NeedsCompound(l int) bool {
 	switch l {
